@@ -1433,6 +1433,28 @@ func c07r10(p *Program, r *Report) {
 			n++
 			rf, re := p.resolveValue(u, c.Args[0], 0)
 			ok := rf == fi && isIdentOf(info, re, ctxParam)
+			if !ok && u != fi {
+				// a helper that is handed the context: what exec passes for that parameter at each of its calls
+				for k := 0; ; k++ {
+					po := paramObj(uinfo, u.Decl.Type, k)
+					if po == nil {
+						break
+					}
+					if !isIdentOf(uinfo, re, po) {
+						continue
+					}
+					sites, good := 0, 0
+					for _, cc := range callsIn(fi.Decl.Body) {
+						if fn := calleeOf(info, cc); fn != nil && p.FuncOf(fn) == u && k < len(cc.Args) {
+							sites++
+							if rf2, re2 := p.resolveValue(fi, cc.Args[k], 0); rf2 == fi && isIdentOf(info, re2, ctxParam) {
+								good++
+							}
+						}
+					}
+					ok = sites > 0 && sites == good
+				}
+			}
 			r.Check(ok, c, u.Name+" writes the frame under the request's context", "writeContext(ctx, ...) with exec's ctx parameter",
 				"the writer is given "+exprStr(c.Args[0])+" instead of the context of the request: a request cancelled while it waits for the write slot is not withdrawn and its frame is written after the caller has gone")
 		}
